@@ -793,6 +793,12 @@ def order_phase(acc, sgcli, P, case, sb):
     acc.hist["cli:creation-order-projects-on-%s" % ("tmpfs" if shm else "sandbox-fs")] += 1
     try:
         items = sorted(list(P.files.items()) + list(P.late.items()))
+        # a generated project may name one path both as a file and as a directory (mod.rs and mod.rs/m0.rs): which of
+        # the two exists would depend on the creation order, so the two trees would not be the same project. Keep the
+        # directory reading in both.
+        _b = lambda r: r if isinstance(r, bytes) else os.fsencode(r)
+        _names = [_b(r) for r, _ in items]
+        items = [(r, c) for r, c in items if not any(o.startswith(_b(r) + b"/") for o in _names)]
         outs = {}
         for name, seq in (("ascending", items), ("descending", items[::-1])):
             root = os.path.join(base, name)
